@@ -1164,6 +1164,122 @@ def gen_cores():
 GENERATORS["cores"] = gen_cores
 
 
+# ---------------------------------------------------------------------------------------------
+# attribute storage: AttrSparseVec::merge / split of attributes/collections.rs (the only code that moves attribute values
+# when cells merge or split): guard, reads, law dispatch table, writes in order
+# ---------------------------------------------------------------------------------------------
+
+COLL_RS = os.environ.get("GEN_LEAN_COLL_RS", "/repo/honeycomb-core/src/attributes/collections.rs")
+ATTR_OUT = os.path.join(os.path.dirname(os.path.dirname(os.path.abspath(__file__))), "lean", "Honeycomb", "Gen", "AttrMoves.lean")
+
+
+def attr_fn(src, fname, params, laws, ok_pat, some_vals):
+    """returns (guard, same-branch instructions, reads, arms, writes) of `merge` / `split`"""
+    where = f"collections.rs {fname}"
+    sig = "".join(fn_sig(src, fname).split())
+    got = re.findall(r"(\w+):DartIdType", sig)
+    need(got == params, f"{where}: parameters {got}")
+    body = "".join(fn_body(src, fname).split())
+    cell = {p: k for k, p in enumerate(params)}
+    rd = r"self\.data\[(\w+)asusize\]\.read\(trans\)\?"
+    wr = r"self\.data\[(\w+)asusize\]\.write\(trans,([\w()]+)\)\?;"
+
+    def c(name):
+        need(name in cell, f"{where}: unknown cell {name!r}")
+        return cell[name]
+
+    # ---- same-cell branch
+    m = re.match(r"if(\w+)==(\w+)\{(.*?)returnOk\(\(\)\);\}", body)
+    need(m, f"{where}: the same-cell branch is not recognised")
+    guard = (c(m.group(1)), c(m.group(2)))
+    same, pos, inner = [], 0, m.group(3)
+    while pos < len(inner):
+        r1 = re.compile(r"letv=" + rd + ";").match(inner, pos)
+        w1 = re.compile(wr).match(inner, pos)
+        if r1:
+            same.append((0, [c(r1.group(1))]))
+            pos = r1.end()
+        elif w1:
+            need(w1.group(2) in ("None", "v"), f"{where}: same-cell branch writes {w1.group(2)!r}")
+            same.append((1, [c(w1.group(1)), 0 if w1.group(2) == "None" else 1]))
+            pos = w1.end()
+        else:
+            raise Shape(f"{where}: same-cell branch: statement not recognised at {inner[pos:pos + 60]!r}")
+    rest = body[m.end():]
+    # ---- reads + dispatch
+    if fname == "merge":
+        m = re.match(r"letnew_v=match\(" + rd + "," + rd + r",?\)\{(.*?)\};matchnew_v\{", rest)
+        need(m, f"{where}: reads / dispatch not recognised")
+        reads = [c(m.group(1)), c(m.group(2))]
+        arms = []
+        for am in re.finditer(r"((?:\|?\((?:Some\(\w+\)|None),(?:Some\(\w+\)|None)\))+)=>AttributeUpdate::(\w+)\(([\w,]*)\),", m.group(3)):
+            need(am.group(2) in laws, f"{where}: unknown law {am.group(2)}")
+            args = [a for a in am.group(3).split(",") if a]
+            for alt in re.findall(r"\((Some\(\w+\)|None),(Some\(\w+\)|None)\)", am.group(1)):
+                names = [re.fullmatch(r"Some\((\w+)\)", x).group(1) if x != "None" else None for x in alt]
+                for a in args:
+                    need(a in names, f"{where}: argument {a} not bound by the pattern")
+                arms.append((int(names[0] is not None), int(names[1] is not None), laws[am.group(2)], [names.index(a) for a in args]))
+        need("".join(x.group(0) for x in re.finditer(r"((?:\|?\((?:Some\(\w+\)|None),(?:Some\(\w+\)|None)\))+)=>AttributeUpdate::(\w+)\(([\w,]*)\),", m.group(3))) == m.group(3),
+             f"{where}: text between the arms not recognised")
+    else:
+        m = re.match(r"letres=ifletSome\((\w+)\)=" + rd + r"\{AttributeUpdate::(\w+)\((\w+)\)\}else\{AttributeUpdate::(\w+)\(\)\};matchres\{", rest)
+        need(m, f"{where}: read / dispatch not recognised")
+        need(m.group(1) == m.group(4) and m.group(3) in laws and m.group(5) in laws, f"{where}: dispatch not recognised")
+        reads = [c(m.group(2))]
+        arms = [(1, 0, laws[m.group(3)], [0]), (0, 0, laws[m.group(5)], [])]
+    rest = rest[m.end():]
+    m = re.match(ok_pat + r"=>\{(.*?)Ok\(\(\)\)\}Err\(e\)=>abort\(e\),?\}$", rest)
+    need(m, f"{where}: result match not recognised: {rest[:80]!r}")
+    writes, pos, inner = [], 0, m.group(1)
+    while pos < len(inner):
+        w1 = re.compile(wr).match(inner, pos)
+        need(w1, f"{where}: write not recognised at {inner[pos:pos + 60]!r}")
+        need(w1.group(2) in some_vals, f"{where}: written value {w1.group(2)!r}")
+        writes.append((1, [c(w1.group(1)), some_vals[w1.group(2)]]))
+        pos = w1.end()
+    return guard, same, reads, arms, writes
+
+
+def gen_attrs():
+    src = strip_comments(open(COLL_RS).read())
+    mg = attr_fn(src, "merge", ["out", "lhs_inp", "rhs_inp"], {"merge": 0, "merge_incomplete": 1, "merge_from_none": 2},
+                 r"Ok\(v\)", {"None": 0, "Some(v)": 2})
+    sp = attr_fn(src, "split", ["lhs_out", "rhs_out", "inp"], {"split": 0, "split_from_none": 1},
+                 r"Ok\(\(lhs_val,rhs_val\)\)", {"None": 0, "Some(lhs_val)": 2, "Some(rhs_val)": 3})
+
+    def ins(l):
+        return "[" + ", ".join(f"({op}, [{', '.join(map(str, a))}])" for op, a in l) + "]"
+
+    def arms(l):
+        return "[" + ", ".join(f"({a}, {b}, {law}, [{', '.join(map(str, args))}])" for a, b, law, args in l) + "]"
+
+    out = ["/-\n  GENERATED by /verif/tools/gen_lean.py from\n  /repo/honeycomb-core/src/attributes/collections.rs — DO NOT EDIT.\n"
+           "  Regenerated by tools/check.py before every build of a module that imports it.\n\n"
+           "  `AttrSparseVec::merge(out, lhs_inp, rhs_inp)` and `AttrSparseVec::split(lhs_out, rhs_out, inp)`; cells are the\n"
+           "  parameters in that order (0, 1, 2).  Guard: the two cells compared by the leading `if a == b` (same-cell branch).\n"
+           "  Instructions: (0, [c]) `let v = self.data[c].read(trans)?`; (1, [c, w]) `self.data[c].write(trans, w)?` with\n"
+           "  w: 0 = None, 1 = v (the option just read), 2 = Some(first result), 3 = Some(second result).\n"
+           "  Reads: the cells read before the law dispatch, in order.  Arms: (first is Some, second is Some, law, arguments)\n"
+           "  with law 0 / 1 / 2 = merge / merge_incomplete / merge_from_none (resp. 0 / 1 = split / split_from_none) and the\n"
+           "  arguments given as positions of the values read.  Writes: executed after an Ok law result, in order; an Err\n"
+           "  result aborts before any write.  Props/C04Gen.lean interprets this and proves it EQUAL to `mergeS` / `splitS`.\n-/\n",
+           "namespace HC.Gen\n"]
+    for nm, (g, same, reads, ar, wr_) in (("merge", mg), ("split", sp)):
+        out.append(f"def {nm}Guard : Nat × Nat := ({g[0]}, {g[1]})\ndef {nm}Same : List (Nat × List Nat) := {ins(same)}\n"
+                   f"def {nm}Reads : List Nat := [{', '.join(map(str, reads))}]\n"
+                   f"def {nm}Arms : List (Nat × Nat × Nat × List Nat) := {arms(ar)}\n"
+                   f"def {nm}Writes : List (Nat × List Nat) := {ins(wr_)}\n")
+    out.append("end HC.Gen\n")
+    txt = "\n".join(out)
+    if not os.path.exists(ATTR_OUT) or open(ATTR_OUT).read() != txt:
+        open(ATTR_OUT, "w").write(txt)
+    return "gen_lean: attrs ok (merge and split of AttrSparseVec)"
+
+
+GENERATORS["attrs"] = gen_attrs
+
+
 def run(names):
     """returns (ok, log)"""
     logs, ok = [], True
